@@ -59,6 +59,19 @@ func VerifAdmit() {
 	batch.Version = 1
 	batch.Entry.Hash = vrtHash(1)
 	batch.Entry.Timestamp = time.Unix(1600000000, 0)
+	// the conversion is the only transaction of its batch, or follows a small transfer of the
+	// same asset by the same address (every transaction of a batch is subject to the same rules)
+	B := vrtAddr(0xB2)
+	var pre uint64
+	if vrt.Param("positions", 2) == 2 && vrt.Choose("position", 2) == 1 {
+		pre = vrt.URange("pre", 1, 1000)
+		var t0 fat2.Transaction
+		t0.Input.Address = A
+		t0.Input.Type = src
+		t0.Input.Amount = pre
+		t0.Transfers = []fat2.AddressAmountTuple{{Address: B, Amount: pre}}
+		batch.Transactions = append(batch.Transactions, t0)
+	}
 	var t fat2.Transaction
 	t.Input.Address = A
 	t.Input.Type = src
@@ -91,8 +104,8 @@ func VerifAdmit() {
 	// ---- specification (rule order as documented in node/pegnet/errors.go)
 	var want int64 = 1
 	switch {
-	case amt > bal:
-		want = -1
+	case amt > bal || pre > bal:
+		want = -1 // a transaction that the stored balance cannot cover on its own
 	case rs == 0 || rd == 0:
 		want = -4
 	case height >= specOneWayFCT && dst == fat2.PTickerFCT:
@@ -113,9 +126,17 @@ func VerifAdmit() {
 		vrt.Assert("C13.unconvertible-not-executed", code == 1 && vrt.SameStore(snap0, snap1))
 		return
 	}
+	if amt+pre > bal {
+		// each transaction is covered on its own, the batch as a whole is not (checked after the
+		// admission rules, as the routine documents)
+		vrt.Cover("must-reject")
+		vrt.Assert("C13.forbidden-conversion-rejected-with-code", code == -1)
+		vrt.Assert("C13.rejected-leaves-store-untouched", vrt.SameStore(snap0, snap1))
+		return
+	}
 	vrt.Cover("must-execute")
 	vrt.Assert("C13.allowed-conversion-executed", code == 1 && vrtExecuted(tx, batch.Entry.Hash) == int64(height))
-	vrt.Assert("C13.source-debited", uint64(postS) == bal-amt)
+	vrt.Assert("C13.source-debited", uint64(postS) == bal-amt-pre)
 	if height >= specConvLimit && dst == fat2.PTickerPEG {
 		vrt.Assert("C13.peg-side-deferred-to-bank-pass", uint64(postD) == dbal)
 	} else {
